@@ -1386,7 +1386,7 @@ def _c12_pass(res, sess, b, ids, recipe, rng, tier_scale, tag, only, done):
                 sig = "get_%ss.%s.from-%s.%s" % (f, SELS[sel], kind,
                                                 "omission" if miss and not extra else ("extra" if extra and not miss else "differs"))
                 # --- open finding: pins of a removed child / port left on a wire are followed ---
-                if nets.dangling and extra and not miss and all(x not in elab.all_valid for x in extra):
+                if nets.dangling and extra and not miss and any(x not in elab.all_valid for x in extra):
                     sig = SIG_DANGLING
                     known_sig = sig
                 # --- classification of the two (fixed) findings of the BOTH/ALL branch (exact failure classes) ---
@@ -1415,7 +1415,7 @@ def _c12_pass(res, sess, b, ids, recipe, rng, tier_scale, tag, only, done):
                 res.spec_failure(sig, inp, "missing %r extra %r" % (miss[:3], extra[:3]))
         if impl != model:
             if known_sig is None and nets.dangling and not isinstance(impl, dict) and \
-                    sorted(x for x in impl if tuple(x) in elab.all_valid) == model:
+                    set(map(tuple, model)) <= set(map(tuple, impl)) and any(tuple(x) not in elab.all_valid for x in impl):
                 known_sig = SIG_DANGLING
             if known_sig is None and sel == "B" and not isinstance(impl, dict):
                 # BOTH is outside the property's statement, but it runs through the same two code paths:
